@@ -217,21 +217,16 @@ class _Interp2d:
         fxy = self._intp([x], [y])[0]
         if not np.isnan(fxy):
             return fxy
-        if x < self._xmin:
-            if y < self._ymin:
-                return self._intp([self._xmin], [self._ymin])[0]
-            if y > self._ymax:
-                return self._intp([self._xmin], [self._ymax])[0]
-            return self._intp([self._xmin], [y])[0]
-        if x > self._xmax:
-            if y < self._ymin:
-                return self._intp([self._xmax], [self._ymin])[0]
-            if y > self._ymax:
-                return self._intp([self._xmax], [self._ymax])[0]
-            return self._intp([self._xmax], [y])[0]
-        if y < self._ymin:
-            return self._intp([x], [self._ymin])[0]
-        return self._intp([x], [self._ymax])[0]
+        # outside of (or on the edge of) the table: use the nearest edge point
+        xc = min(max(x, self._xmin), self._xmax)
+        yc = min(max(y, self._ymin), self._ymax)
+        fxy = self._intp([xc], [yc])[0]
+        if np.isnan(fxy):
+            # an edge point can be rounded out of the triangulation: move it a hair inside
+            xc += 1e-12 * (0.5 * (self._xmin + self._xmax) - xc)
+            yc += 1e-12 * (0.5 * (self._ymin + self._ymax) - yc)
+            fxy = self._intp([xc], [yc])[0]
+        return fxy
 
 
 class _ComponentMeta(type):
